@@ -216,7 +216,51 @@ def oracle_noninterference_offpolicy(ctx: Ctx, case):
     ctx.count(nontrivial=eff, classes=[combo] + ["effective"] * eff, key=[combo, j, case["key"] % 256])
 
 
-PARTS = {"modes": modes_case, "collect_vmapped": oracle_collect_vmapped, "noninterference": oracle_noninterference, "noninterference_offpolicy": oracle_noninterference_offpolicy}
+@functools.lru_cache(maxsize=None)
+def _dqn_greedy(E, S):
+    from lerax.algorithm import DQN
+
+    return DQN(buffer_size=8 * E, learning_starts=1, num_envs=E, num_steps=S, batch_size=1, learning_rate=0.5, target_update_interval=1000)
+
+
+def oracle_dqn_parallel_policy(ctx: Ctx, case):
+    """The vectorised DQN collection acts with the same (current, online) policy a single-environment
+    collection uses: with a greedy Q-table policy every newly stored action is the arg-max of the online
+    table as it stood at the start of that iteration, for every environment."""
+    from checks import c05_offpolicy_collect as c05
+
+    spec, E, S = case["spec"], case["E"], case["S"]
+    env = mdp.make_env(spec)
+    interp = mdp.Interp(spec)
+    policy = TableQPolicy(env, spec, case["q"], 0.0)
+    algo = _dqn_greedy(E, S)
+    cb = StashCallback(())
+    state = c05._reset(algo, env, policy, jr.key(case["key"]), cb)
+    cap = 8 if E > 1 else 8
+    moved = differs = False
+    total = 1
+    for k in range(1, case["iters"] + 1):
+        q_online = np.asarray(state.policy.q, np.float64)
+        q_target = np.asarray(state.target_policy.q, np.float64)
+        differs |= bool((q_online.argmax(1) != q_target.argmax(1)).any())
+
+        def chooser(s, q=q_online):
+            top = np.sort(q[s])[::-1]
+            return None if len(top) > 1 and top[0] - top[1] < 1e-6 else int(np.argmax(q[s]))
+
+        prev = state
+        state = c05._iterate(algo, state, jr.key(case["key"] + k), cb)
+        moved |= not np.array_equal(np.asarray(state.policy.q), q_online)
+        new_total = total + S
+        for e in range(E):
+            ss0 = prev.step_state if E == 1 else jax.tree.map(lambda x: x[e], prev.step_state)
+            s0, c0, acc0 = mdp.read_state(spec, ss0.env_state)
+            c05.walk_stream(ctx, spec, interp, state.step_state.buffer, e, E, cap, total, new_total, (s0, c0, int(ss0.policy_state.n), acc0), {"algo": "DQN", "E": E}, chooser=chooser)
+        total = new_total
+    ctx.count(nontrivial=E > 1 and differs, classes=[f"E={E}"] + ["online_differs_from_target"] * differs + ["trained"] * moved, key=[E, S, case["key"] % 256, case["iters"]])
+
+
+PARTS = {"dqn_parallel_policy": oracle_dqn_parallel_policy, "modes": modes_case, "collect_vmapped": oracle_collect_vmapped, "noninterference": oracle_noninterference, "noninterference_offpolicy": oracle_noninterference_offpolicy}
 
 
 @st.composite
@@ -249,6 +293,13 @@ def offpolicy_cases(draw, combo):
     return case
 
 
+@st.composite
+def dqn_policy_cases(draw, E, S):
+    spec = draw(mdp.mdp_specs(fixed_sizes=(4, 3), fixed_time_limit="some", time_limits=(None, 3, 5, 8)))
+    spec["I"] = [True] * 4
+    return {"spec": spec, "E": E, "S": S, "q": [[draw(st.floats(-1, 1, allow_nan=False).map(lambda x: round(x, 2))) for _ in range(3)] for _ in range(4)], "iters": draw(st.integers(2, 3)), "key": draw(st.integers(0, 2**31 - 100))}
+
+
 def run(ctx: Ctx):
     ctx.rule = (
         "(a) every built-in environment (and wrapper stacks): initial/transition/observation/reward/terminal/truncate evaluated "
@@ -257,7 +308,7 @@ def run(ctx: Ctx):
         "iteration() makes equals N single-environment collections slice by slice on generated finite MDPs; (b2) through "
         "iteration() (buffer captured from ctx.locals): replacing only env j's start state leaves every field of every other "
         "env's slice (incl. advantages/returns and carried state) bit-identical, on-policy (PPO/A2C/REINFORCE) and off-policy "
-        "(DQN buffers). Non-trivial: perturbation effective for env j and an episode end in another env."
+        "(DQN buffers); (b3) vectorised DQN collection acts with the current online policy (greedy Q-table, learning rate 0.5, late target sync) exactly as single-environment collection does. Non-trivial: perturbation effective for env j and an episode end in another env."
     )
     ctx.assumptions = ["float32 default mode; tolerance rtol 1e-5/atol 1e-6 (classic) and 2e-4/2e-5 (MuJoCo single transitions)"]
     rng = np.random.default_rng(ctx.seed + 12)
@@ -281,4 +332,7 @@ def run(ctx: Ctx):
         ctx.run_given("noninterference", nonint_cases(config, algo, N, T), oracle_noninterference, ctx.n(30, 500), shrink=False)
     for combo in ("dqn-3env-wrap", "dqn-2env-ls0"):
         ctx.run_given("noninterference_offpolicy", offpolicy_cases(combo), oracle_noninterference_offpolicy, ctx.n(25, 400), shrink=False)
+    for E, S in ((3, 2), (1, 2)) if ctx.quick else ((3, 2), (1, 2), (2, 3), (4, 1)):
+        ctx.run_given("dqn_parallel_policy", dqn_policy_cases(E, S), oracle_dqn_parallel_policy, ctx.n(40, 600), shrink=False)
     ctx.require_fraction("noninterference", "effective", 0.5)
+    ctx.require_fraction("dqn_parallel_policy", "online_differs_from_target", 0.3)
